@@ -674,6 +674,20 @@ impl<A: ArenaAllocator> Drop for Arena<A> {
             let value = x.payload_ptr();
             x.0.drop_in_place(value);
         });
+        #[cfg(starlark_verif)]
+        unsafe {
+            // Poison everything this arena owns, so that a dangling reference
+            // into a dropped arena is a deterministic wrong read or fault.
+            for bump in [&self.drop, &self.non_drop] {
+                for chunk in bump.iter_allocated_chunks_rev() {
+                    std::ptr::write_bytes(
+                        chunk.as_ptr() as *mut u8,
+                        crate::verif::POISON,
+                        chunk.len(),
+                    );
+                }
+            }
+        }
     }
 }
 
